@@ -14,6 +14,7 @@ import AY.Driver.OpsMeta
 import AY.Driver.OpsBunch
 import AY.Driver.OpsImportName
 import AY.Driver.OpsErrWrap
+import AY.Driver.OpsSources
 open Lean AY AY.Codec
 
 def parseDocs (j : Json) : Except String (List (Env × Raw)) :=
@@ -116,6 +117,7 @@ def dispatch (j : Json) : Json :=
   | .ok (.str "bunch") => AY.OpsBunch.opBunch j
   | .ok (.str "importName") => AY.OpsImportName.opImportName j
   | .ok (.str "errwrap") => AY.OpsErrWrap.opErrWrap j
+  | .ok (.str "sources") => AY.OpsSources.opSources j
   | _ => Json.mkObj [("bad", .str "unknown op")]
 
 partial def loop (h : IO.FS.Stream) (out : IO.FS.Stream) : IO Unit := do
